@@ -325,10 +325,12 @@ theorem raced_only_by_delete_after_refresh {s s' : CState} {l : Label} (hs : cst
       | (cases hs; exact Or.inl hp)
       | cases hs
 
-/-- **stop_waits_cleaner.** `Stop` can return only when the periodic goroutine has exited: it is
-not inside a Cleanup (no cleaner with id 0 in flight) and its deferred `ticker.Stop()` has run. -/
+/-- **stop_waits_cleaner.** EVERY `Stop` call — the one that wins the `stopped` CAS and every other,
+concurrent or later one (`caller` is arbitrary; any number of them may be in flight) — can return
+only when the periodic goroutine has exited: it is not inside a Cleanup (no cleaner with id 0 in
+flight) and its deferred `ticker.Stop()` has run. -/
 theorem stop_waits_cleaner {maxTTL t0 period : Int} {s s' : CState} (hr : Reach maxTTL t0 period s)
-    (hs : cstep s .stopReturn = some s') :
+    (caller : Nat) (hs : cstep s (.stopReturn caller) = some s') :
     s.bg = .exited ∧ s.tickerStopped = true ∧ ∀ c ∈ s.cls, c.id ≠ 0 := by
   have hI := cinv_reach hr
   simp only [cstep] at hs
@@ -339,6 +341,74 @@ theorem stop_waits_cleaner {maxTTL t0 period : Int} {s s' : CState} (hr : Reach 
     have := hI.bgCl c hc h0
     rw [hb] at this; cases this
   · cases hs
+
+/-- Once the periodic goroutine has exited it stays exited: no step of anybody restarts it. -/
+theorem exited_is_final {maxTTL t0 period : Int} {s s' : CState} {l : Label}
+    (hr : Reach maxTTL t0 period s) (hs : cstep s l = some s') (hb : s.bg = .exited) :
+    s'.bg = .exited := by
+  have hI := cinv_reach hr
+  cases l
+  case cEnd id =>
+    simp only [cstep] at hs
+    split at hs
+    · rename_i c0 hfind
+      obtain ⟨hc0, hid0⟩ := findCl_some hfind
+      split at hs
+      · cases hs
+        by_cases hz : id = 0
+        · have := hI.bgCl c0 hc0 (by rw [hid0, hz])
+          rw [hb] at this; cases this
+        · simp [hz, hb]
+      · cases hs
+    · cases hs
+  case bgTake =>
+    simp only [cstep] at hs
+    split at hs
+    · rename_i hcond; rw [hb] at hcond; exact absurd hcond.1 (by decide)
+    · cases hs
+  all_goals
+    simp only [cstep] at hs
+    repeat' split at hs
+    all_goals first
+      | (cases hs; exact hb)
+      | (cases hs; rfl)
+      | cases hs
+
+/-- **After any `Stop` has returned the periodic cleaner deletes nothing any more**: in every state
+reachable afterwards its delete step is disabled (and so are its visits and its restart). -/
+theorem no_periodic_delete_after_stop_returned {maxTTL t0 period : Int} {s s1 : CState}
+    (hr : Reach maxTTL t0 period s) (caller : Nat) (hs : cstep s (.stopReturn caller) = some s1)
+    (ls : List Label) (s2 : CState) (hrun : crun s1 ls = some s2) :
+    s2.bg = .exited ∧ (∀ k st, cstep s2 (.cDelOne 0 k st) = none) ∧ cstep s2 .bgTake = none := by
+  have hb1 : s1.bg = .exited := exited_is_final hr hs (stop_waits_cleaner hr caller hs).1
+  have hr1 : Reach maxTTL t0 period s1 := Reach.step _ hr hs
+  have key : ∀ (ls : List Label) (a b : CState), Reach maxTTL t0 period a → a.bg = .exited →
+      crun a ls = some b → Reach maxTTL t0 period b ∧ b.bg = .exited := by
+    intro ls
+    induction ls with
+    | nil => intro a b ha hb h; simp only [crun, Option.some.injEq] at h; subst h; exact ⟨ha, hb⟩
+    | cons l ls ih =>
+      intro a b ha hb h
+      simp only [crun] at h
+      cases hst : cstep a l with
+      | none => simp [hst] at h
+      | some a' =>
+        simp only [hst] at h
+        exact ih a' b (Reach.step _ ha hst) (exited_is_final ha hst hb) h
+  obtain ⟨hr2, hb2⟩ := key ls s1 s2 hr1 hb1 hrun
+  have hI := cinv_reach hr2
+  refine ⟨hb2, ?_, ?_⟩
+  · intro k st
+    simp only [cstep]
+    cases hf : findCl s2.cls 0 with
+    | none => rfl
+    | some c =>
+      obtain ⟨hc, hid⟩ := findCl_some hf
+      have := hI.bgCl c hc hid
+      rw [hb2] at this; cases this
+  · simp only [cstep]
+    rw [if_neg]
+    intro h; rw [hb2] at h; exact absurd h.1 (by decide)
 
 /-- Non-vacuity (and the documented race as a run of the LTS): `Set a` (ttl 1 s), 2 s pass, a
 cleaner snapshots `a` as expired, `a` is refreshed (ttl 50 s), a `Get` hits the new value, the
@@ -352,14 +422,15 @@ example :
       (fun s => (getOfC s "a", s.raced, (mget s.ref "a").map (fun x => (x.1.val, x.2)), getOfC s "b"))
     = some (none, [("a", 2)], some (3, 2), some 2) := by decide
 
-/-- Non-vacuity of `stop_waits_cleaner`: `Stop` while the periodic cleaner is inside Cleanup cannot
-return (`stopReturn` disabled) until the cleaner has finished and exited. -/
+/-- Non-vacuity of `stop_waits_cleaner`: two concurrent `Stop` calls while the periodic cleaner is
+inside Cleanup: NEITHER can return (`stopReturn 1`, `stopReturn 2` disabled) until the cleaner has
+finished and exited; then both return. -/
 example :
-    (crun (CState.init 0 0 1000000000) [.advance 1000000000, .bgTake, .cNow 0, .stopCall]).map
-      (fun s => (cstep s .stopReturn).isSome) = some false ∧
+    (crun (CState.init 0 0 1000000000) [.advance 1000000000, .bgTake, .cNow 0, .cSeal 0, .stopCall 1, .stopCall 2]).map
+      (fun s => ((cstep s (.stopReturn 1)).isSome, (cstep s (.stopReturn 2)).isSome)) = some (false, false) ∧
     (crun (CState.init 0 0 1000000000)
-      [.advance 1000000000, .bgTake, .cNow 0, .stopCall, .cSeal 0, .cEnd 0, .bgExit, .stopReturn]).isSome
-      = true := by decide
+      [.advance 1000000000, .bgTake, .cNow 0, .cSeal 0, .stopCall 1, .stopCall 2, .cEnd 0, .bgExit,
+       .stopReturn 2, .stopReturn 1, .stopCall 3, .stopReturn 3]).isSome = true := by decide
 
 /-- Trace-level reading of `hit_is_fresh` (not proved in this round): for every run `ls` from the
 initial state, a hit equals what the backwards scan `lastLive` of the callers' Set/Delete/Advance
